@@ -68,7 +68,11 @@ func (b *Builder) AddLink(requestID graphsync.RequestID, link ipld.Link, linkAct
 // as well as whether the graphsync request responded with complete or partial
 // data.
 func (b *Builder) AddResponseCode(requestID graphsync.RequestID, status graphsync.ResponseStatusCode) {
-	b.completedResponses[requestID] = status
+	// a terminal status still waiting to be sent in this message is what ends the request on both peers:
+	// a later non-terminal status (an update, a pause) must not replace it
+	if current, ok := b.completedResponses[requestID]; !ok || !current.IsTerminal() || status.IsTerminal() {
+		b.completedResponses[requestID] = status
+	}
 	// make sure this completion goes out in next response even if no links are sent
 	_, ok := b.outgoingResponses[requestID]
 	if !ok {
